@@ -81,23 +81,42 @@ class _Rename(ast.NodeTransformer):
 
 
 def _bind(fn, call, skip_first):
-    """parameter name -> argument expression, or None if not bindable"""
+    """parameter name -> argument expression, or None if not bindable.
+    ``*args`` / ``**kwargs`` of the helper are bound only to a ``*x`` / ``**y``
+    passed straight through at the call site."""
     a = fn.args
-    if a.vararg or a.kwarg or a.posonlyargs:
+    if a.posonlyargs:
         return None
     params = [p.arg for p in a.args]
     if skip_first:
         params = params[1:]
-    if any(isinstance(x, ast.Starred) for x in call.args) or any(
-            k.arg is None for k in call.keywords):
-        return None
-    if len(call.args) > len(params):
-        return None
+    cargs = list(call.args)
+    ckw = list(call.keywords)
     out = {}
-    for p, x in zip(params, call.args):
+    star = [x for x in cargs if isinstance(x, ast.Starred)]
+    if star:
+        if not a.vararg or len(star) != 1 or cargs[-1] is not star[0]:
+            return None
+        out[a.vararg.arg] = star[0].value
+        cargs = cargs[:-1]
+    elif a.vararg:
+        if len(cargs) > len(params):
+            return None
+        out[a.vararg.arg] = ast.Tuple(elts=[], ctx=ast.Load())
+    dstar = [k for k in ckw if k.arg is None]
+    if dstar:
+        if not a.kwarg or len(dstar) != 1:
+            return None
+        out[a.kwarg.arg] = dstar[0].value
+        ckw = [k for k in ckw if k.arg is not None]
+    elif a.kwarg:
+        out[a.kwarg.arg] = ast.Dict(keys=[], values=[])
+    if len(cargs) > len(params):
+        return None
+    for p, x in zip(params, cargs):
         out[p] = x
     kwonly = [p.arg for p in a.kwonlyargs]
-    for k in call.keywords:
+    for k in ckw:
         if k.arg in out or (k.arg not in params and k.arg not in kwonly):
             return None
         out[k.arg] = k.value
@@ -301,7 +320,11 @@ class Inliner:
             res = self.resolve(top[1])
             if res is not None and res[0].name != owner:
                 h, is_method = res
-                if expression_form(h) is None:
+                branching = any(isinstance(n, ast.If) for b in _body(h)
+                                for n in ast.walk(b))
+                if expression_form(h) is None or branching:
+                    # (a helper that branches is inlined as statements where
+                    # it can be, so that its branches become paths)
                     got = self._inline_statement(st, top[0], top[1], h, is_method,
                                                  depth)
                     if got is not None:
